@@ -38,6 +38,7 @@ import (
 	transport_quic "github.com/aperturerobotics/bifrost/transport/common/quic"
 	tptc "github.com/aperturerobotics/bifrost/transport/controller"
 	"github.com/aperturerobotics/controllerbus/controller"
+	"github.com/aperturerobotics/controllerbus/directive"
 	"github.com/aperturerobotics/util/backoff"
 	"github.com/blang/semver/v4"
 	"github.com/quic-go/quic-go"
@@ -1163,6 +1164,72 @@ func runStorm(out *vio.Out, le *logrus.Entry) {
 	out.Emit(map[string]any{"e": "storm", "rounds": rounds, "registry_wrong": bad, "second_link_closed": closedSecond, "details": details})
 }
 
+// runSelfDial (C04): a transport controller that is NOT pinned to a peer id (it looks its peer up on the bus, the documented default)
+// dials its own address: the links whose remote peer is the local peer must be closed and never reported.
+func runSelfDial(out *vio.Out, le *logrus.Entry) {
+	n := &memNet{eps: map[string]*endpoint{}}
+	ctx, cancel := context.WithCancel(context.Background())
+	defer cancel()
+	lk := vio.Key("quicnet/ctl")
+	tb, err := testbed.NewTestbed(ctx, le, testbed.TestbedOpts{PrivKey: lk, NoEcho: true})
+	if err != nil {
+		vio.Fatal("%v", err)
+	}
+	defer tb.Release()
+	localID, _ := peer.IDFromPrivateKey(lk)
+	ep := n.bind("addrCtl")
+	ctor := func(ctx context.Context, le *logrus.Entry, pkey crypto.PrivKey, h transport.TransportHandler) (transport.Transport, error) {
+		t, err := pconn.NewTransport(ctx, le, pkey, h, slowOpts, 9, ep, parseAddr, nil)
+		if err != nil {
+			return nil, err
+		}
+		return &dialerTpt{t}, nil
+	}
+	// empty peer id: resolved through the bus
+	ctrl := tptc.NewController(le, tb.Bus, controller.NewInfo("verif/quic", semver.MustParse("0.0.1"), ""), "", false, ctor)
+	rel, err := tb.Bus.AddController(ctx, ctrl, nil)
+	if err != nil {
+		vio.Fatal("%v", err)
+	}
+	defer rel()
+	gt, err := ctrl.GetTransport(ctx)
+	if err != nil {
+		vio.Fatal("%v", err)
+	}
+	res := map[string]any{"e": "selfdial", "resolved_local": gt.GetPeerID() == localID}
+	dctx, dcancel := context.WithTimeout(ctx, 5*time.Second)
+	l, _, derr := gt.(*dialerTpt).DialPeer(dctx, localID, "addrCtl")
+	dcancel()
+	res["dial_completed"] = derr == nil && l != nil
+	// eventually (bound 10 s) nothing with the local peer as remote is reported
+	reported := -1
+	for dl := time.Now().Add(10 * time.Second); time.Now().Before(dl); {
+		reported = len(ctrl.GetPeerLinks(localID))
+		if reported == 0 {
+			time.Sleep(200 * time.Millisecond)
+			reported = len(ctrl.GetPeerLinks(localID))
+			if reported == 0 {
+				break
+			}
+		}
+		time.Sleep(50 * time.Millisecond)
+	}
+	res["self_links_reported"] = reported
+	// and a request for a link to the local peer yields nothing
+	nvals := 0
+	var vmu sync.Mutex
+	_, vref, verr := tb.Bus.AddDirective(link.NewEstablishLinkWithPeer("", localID), directive.NewTypedCallbackHandler[link.MountedLink](
+		func(v directive.TypedAttachedValue[link.MountedLink]) { vmu.Lock(); nvals++; vmu.Unlock() }, nil, nil, nil))
+	if verr == nil {
+		time.Sleep(300 * time.Millisecond)
+		vref.Release()
+	}
+	vmu.Lock()
+	res["self_link_values"] = nvals
+	vmu.Unlock()
+	out.Emit(res)
+}
+
 func main() {
 	mode := flag.String("mode", "certs", "")
 	cases := flag.String("cases", "", "")
@@ -1178,6 +1245,8 @@ func main() {
 	out := vio.NewOut(*outp)
 	if *mode == "certs" {
 		runCerts(*cases, out)
+	} else if *mode == "selfdial" {
+		runSelfDial(out, logrus.NewEntry(lg))
 	} else if *mode == "storm" {
 		runStorm(out, logrus.NewEntry(lg))
 	} else if *mode == "flash" {
